@@ -3,6 +3,7 @@ package sem
 import (
 	"context"
 	"encoding/json"
+	"errors"
 	"fmt"
 	"iter"
 	"math"
@@ -43,7 +44,9 @@ type BlockObs struct {
 	BP      int  `json:"bp"`
 	TR      int  `json:"tr"`
 	RowRead bool `json:"rowread"`
-	USize   int  `json:"usize"`
+	// RowReadF: row data of the block was read by the re-run of the query whose first OpenFile failed
+	RowReadF bool `json:"rowread_f"`
+	USize    int  `json:"usize"`
 }
 
 type FileObs struct {
@@ -99,12 +102,13 @@ type Obs struct {
 
 // ioCtl records the DataStore calls of the main query.
 type ioCtl struct {
-	mu     sync.Mutex
-	on     bool
-	opens  map[string]int
-	closes map[string]int
-	reads  []readRec
-	hold   func() // run once, on the goroutine of the next write call, before that write takes effect
+	mu        sync.Mutex
+	on        bool
+	opens     map[string]int
+	closes    map[string]int
+	reads     []readRec
+	failOpens int    // the next OpenFile calls fail (transiently)
+	hold      func() // run once, on the goroutine of the next write call, before that write takes effect
 }
 
 type readRec struct {
@@ -113,6 +117,15 @@ type readRec struct {
 }
 
 func (c *ioCtl) Before(op *h.StoreOp) error {
+	if op.Kind == "open" {
+		c.mu.Lock()
+		defer c.mu.Unlock()
+		if c.failOpens > 0 {
+			c.failOpens--
+			return errors.New("verif: transient open failure")
+		}
+		return nil
+	}
 	if op.Kind != "write" {
 		return nil
 	}
@@ -700,6 +713,30 @@ func (x *executor) Run(c *Case) *Obs {
 
 	// ---- independence: the returned rows were mutated; run it again, and concurrently
 	o.Res2, _, _, _ = x.runQuery(qeng, q, trips, true)
+	// ---- pruning under a fault: the same query once more, the first OpenFile of it fails; whatever the engine makes of
+	// the failure, row data of a block its filters rule out stays unread
+	io.mu.Lock()
+	io.on, io.failOpens = true, 1
+	io.reads, io.opens, io.closes = nil, map[string]int{}, map[string]int{}
+	io.mu.Unlock()
+	x.runQuery(qeng, q, trips, false)
+	io.mu.Lock()
+	io.on, io.failOpens = false, 0
+	freads := io.reads
+	io.mu.Unlock()
+	for ptr := range fileIdx {
+		md := fileMeta[ptr]
+		for _, rd := range freads {
+			if rd.ptr != ptr {
+				continue
+			}
+			for _, blk := range md.DataBlocks {
+				if overlaps(rd.off, rd.n, int64(blk.RowDataOffset), int64(blk.RowDataSize)) {
+					o.Blocks[blockAt[blockKey{ptr, blk.RowDataOffset}]].RowReadF = true
+				}
+			}
+		}
+	}
 	if c.Dims.Conc > 0 {
 		var wg sync.WaitGroup
 		out := make([][]int, c.Dims.Conc)
